@@ -1,11 +1,17 @@
 (** C21 — reorder buffers release responses in arrival order.  Property theorems only.
 
-    Setting: [env_run (rob_init size width tcap bcap) script] is the reorder buffer driven for
+    Setting: [env_run (rob_init size width tcap bcap ccap) script] is the reorder buffer driven for
     any number of ticks by ANY environment script: at each instant any requests arrive at Top,
     the lower unit delivers any responses at Bottom (any order, any delay, duplicates, wrong
-    kind, unknown RspTo, foreign message types), any number of messages are drained from the
-    two ports (back-pressure).  [obs] are the messages drained per tick; [r] is the final state.
-    Ghosts: [g_acc r] = accepted requests with their shadow ids, in acceptance order. *)
+    kind, unknown RspTo, foreign message types), any control messages arrive at Control
+    (Pause, Drain, Enable, Reset, unsupported verbs, foreign messages — any number, any time),
+    the component may go through a checkpoint save/load round trip, any number of messages
+    are drained from the three ports (back-pressure).  [obs] are the messages drained per tick;
+    [r] is the final state.
+    Ghosts: [g_acc r] = the accepted requests with their shadow ids, in acceptance order, minus
+    those a Reset discarded (a Reset forgets the requests accepted but not yet answered; they
+    are never answered — their table entries are gone and late results are dropped — and the
+    statements below hold for everything accepted before and after the Reset). *)
 From Akita Require Import Lib.Base C21.Model C21.Proofs C21.Proofs2.
 Local Open Scope N_scope.
 
@@ -15,12 +21,12 @@ Definition bot_traffic (r : rob) (obs : list tick_obs) : list sreq := flat_map t
 Definition rsp_meta (x : trsp) : N * N * bool :=
   match x with TData _ dst rspto _ _ => (dst, rspto, true) | TDone _ dst rspto _ => (dst, rspto, false) end.
 
-Lemma run_good size width tc bc script r obs :
-  env_run (rob_init size width tc bc) script = (r, obs) ->
+Lemma run_good size width tc bc cc script r obs :
+  env_run (rob_init size width tc bc cc) script = (r, obs) ->
   inv r /\ map fst (g_rel r) = top_traffic r obs /\ g_shadow r = bot_traffic r obs.
 Proof.
   intro E.
-  assert (G0 : good [] [] (rob_init size width tc bc) (rob_init size width tc bc)).
+  assert (G0 : good [] [] (rob_init size width tc bc cc) (rob_init size width tc bc cc)).
   { split; [apply inv_init|split; [split; reflexivity|repeat split]]. }
   destruct (env_run_good _ script [] [] _ r obs G0 E) as [I [[H1 H2] _]]. cbn [app] in H1, H2.
   split; [exact I|split; assumption].
@@ -30,14 +36,14 @@ Qed.
     accepted — whatever order the lower unit completed them in.  Equivalently the sequence of
     (destination, RspTo, kind) of all Top responses is a prefix of the sequence of
     (source, ID, kind) of the accepted requests. *)
-Theorem c21_in_order : forall size width tc bc script r obs,
-  env_run (rob_init size width tc bc) script = (r, obs) ->
+Theorem c21_in_order : forall size width tc bc cc script r obs,
+  env_run (rob_init size width tc bc cc) script = (r, obs) ->
   exists pending,
     map (fun a => (q_src (fst a), q_id (fst a), q_is_read (fst a))) (g_acc r) =
     map rsp_meta (top_traffic r obs) ++ pending /\
     length pending = length (r_trans r).
 Proof.
-  intros size width tc bc script r obs E. destruct (run_good _ _ _ _ _ _ _ E) as [I [H1 _]].
+  intros size width tc bc cc script r obs E. destruct (run_good _ _ _ _ _ _ _ _ E) as [I [H1 _]].
   exists (map (fun t => (t_top_src t, t_top_id t, t_is_read t)) (r_trans r)).
   split; [|apply map_length].
   rewrite <- H1.
@@ -57,13 +63,13 @@ Print Assumptions c21_in_order.
 (** Original requester and ID: the k-th Top response is sent to the source of the k-th
     accepted request, with RspTo = that request's ID, and is a DataReady for a read and a
     WriteDone for a write. *)
-Theorem c21_original_requester_and_id : forall size width tc bc script r obs k rsp,
-  env_run (rob_init size width tc bc) script = (r, obs) ->
+Theorem c21_original_requester_and_id : forall size width tc bc cc script r obs k rsp,
+  env_run (rob_init size width tc bc cc) script = (r, obs) ->
   nth_error (top_traffic r obs) k = Some rsp ->
   exists q sid, nth_error (g_acc r) k = Some (q, sid) /\
     rsp_meta rsp = (q_src q, q_id q, q_is_read q).
 Proof.
-  intros size width tc bc script r obs k rsp E Hk. destruct (run_good _ _ _ _ _ _ _ E) as [I [H1 _]].
+  intros size width tc bc cc script r obs k rsp E Hk. destruct (run_good _ _ _ _ _ _ _ _ E) as [I [H1 _]].
   rewrite <- H1 in Hk. destruct (kth_answer r k rsp I Hk) as [q [sid [t [Ha [Hkey [A _]]]]]].
   exists q, sid. split; [exact Ha|]. unfold akey, tkey in Hkey. cbn [fst snd] in Hkey. inversion Hkey as [[K1 K2 K3 K4]].
   cbn in A. destruct A as [_ A]. destruct rsp; cbn [rsp_meta].
@@ -73,23 +79,22 @@ Qed.
 Print Assumptions c21_original_requester_and_id.
 
 (** Matching result: for the k-th Top response there is the k-th accepted request [q] with
-    shadow id [sid]; the k-th request the ROB sent to the lower unit is [q]'s payload under
-    that id; the ROB recorded a non-empty list [answers] of lower-unit responses for it, every
+    shadow id [sid]; the ROB sent [q]'s payload under that id to the lower unit; the ROB recorded a non-empty list [answers] of lower-unit responses for it, every
     one of them carrying RspTo = [sid]; and a read response carries exactly the data of the
     last DataReady among them (with TrafficBytes = len + 4). *)
-Theorem c21_matching_result : forall size width tc bc script r obs k rsp,
-  env_run (rob_init size width tc bc) script = (r, obs) ->
+Theorem c21_matching_result : forall size width tc bc cc script r obs k rsp,
+  env_run (rob_init size width tc bc cc) script = (r, obs) ->
   nth_error (top_traffic r obs) k = Some rsp ->
   exists q sid answers,
     nth_error (g_acc r) k = Some (q, sid) /\
-    nth_error (bot_traffic r obs) k = Some (shadow_of q sid) /\
+    In (shadow_of q sid) (bot_traffic r obs) /\
     answers <> [] /\ (forall b, In b answers -> b_rspto b = Some sid) /\
     match rsp with
     | TData _ _ _ data tb => data = last_data answers /\ tb = (Z.of_nat (length data) + 4)%Z
     | TDone _ _ _ tb => tb = 4%Z
     end.
 Proof.
-  intros size width tc bc script r obs k rsp E Hk. destruct (run_good _ _ _ _ _ _ _ E) as [I [H1 H2]].
+  intros size width tc bc cc script r obs k rsp E Hk. destruct (run_good _ _ _ _ _ _ _ _ E) as [I [H1 H2]].
   rewrite <- H1 in Hk. destruct (kth_answer r k rsp I Hk) as [q [sid [t [Ha [Hkey [A [[O1 [O2 O3]] Hs]]]]]]].
   unfold akey, tkey in Hkey. cbn [fst snd] in Hkey. inversion Hkey as [[K1 K2 K3 K4]].
   exists q, sid, (t_parsed t). split; [exact Ha|]. split; [rewrite <- H2; exact Hs|].
@@ -104,8 +109,8 @@ Print Assumptions c21_matching_result.
 (** Routing of lower-unit responses: in any reachable state, when parseBottom takes a response
     whose RspTo is the shadow id of a live transaction, it is recorded on that transaction
     (shadow ids of live transactions are pairwise distinct) and on no other. *)
-Theorem c21_response_routing : forall size width tc bc script r obs b rest id t,
-  env_run (rob_init size width tc bc) script = (r, obs) ->
+Theorem c21_response_routing : forall size width tc bc cc script r obs b rest id t,
+  env_run (rob_init size width tc bc cc) script = (r, obs) ->
   r_bot_in r = b :: rest -> b_rspto b = Some id -> In t (r_trans r) -> t_bot_id t = id ->
   let r' := snd (parse_bottom r) in
   In (mk_trans (t_top_id t) (t_top_src t) (t_bot_id t) (t_is_read t) true
@@ -113,8 +118,8 @@ Theorem c21_response_routing : forall size width tc bc script r obs b rest id t,
   (forall u, In u (r_trans r) -> t_bot_id u <> id -> In u (r_trans r')) /\
   NoDup (map t_bot_id (r_trans r)).
 Proof.
-  intros size width tc bc script r obs b rest id t E Hb Hid Hin Ht r'.
-  destruct (run_good _ _ _ _ _ _ _ E) as [I _].
+  intros size width tc bc cc script r obs b rest id t E Hb Hid Hin Ht r'.
+  destruct (run_good _ _ _ _ _ _ _ _ E) as [I _].
   subst r'. unfold parse_bottom. rewrite Hb, Hid. cbn [snd upd_ports r_trans].
   destruct (record_rsp_routes b id (r_trans r) t (i_nodup r I) Hin Ht) as [A B].
   split; [exact A|split; [exact B|apply (i_nodup r I)]].
@@ -128,14 +133,14 @@ Print Assumptions c21_response_routing.
 From Akita Require Import C21.Exec C21.Link.
 Theorem c21_model_agreement_implies_property : forall c, check_case c = true ->
   exists r pending,
-    fst (env_run (rob_init (c_size c) (c_width c) (c_tcap c) (c_bcap c)) (c_script c)) = r /\
+    fst (env_run (rob_init (c_size c) (c_width c) (c_tcap c) (c_bcap c) (c_ccap c)) (c_script c)) = r /\
     map (fun a => (q_src (fst a), q_id (fst a), q_is_read (fst a))) (g_acc r) =
     map rsp_meta (flat_map to_top (o_ticks c) ++ r_top_out r) ++ pending.
 Proof.
   intros c H. pose proof (check_case_obs c H) as Hobs.
-  destruct (env_run (rob_init (c_size c) (c_width c) (c_tcap c) (c_bcap c)) (c_script c)) as [r obs] eqn:E.
+  destruct (env_run (rob_init (c_size c) (c_width c) (c_tcap c) (c_bcap c) (c_ccap c)) (c_script c)) as [r obs] eqn:E.
   cbn [snd] in Hobs. subst obs.
-  destruct (c21_in_order _ _ _ _ _ _ _ E) as [pending [Hp _]].
+  destruct (c21_in_order _ _ _ _ _ _ _ _ E) as [pending [Hp _]].
   exists r, pending. split; [reflexivity|exact Hp].
 Qed.
 Print Assumptions c21_model_agreement_implies_property.
@@ -143,15 +148,38 @@ Print Assumptions c21_model_agreement_implies_property.
 (** Non-vacuity: four requests, answered youngest first; the responses come out oldest first,
     each with its own data. *)
 Definition demo_script : list instant :=
-  [mk_instant [QRead 10 0 0 4 0 12; QWrite 11 1 64 [9] [] 0 13] [] 4 4;
-   mk_instant [QRead 12 2 128 4 0 12] [] 4 4;
-   mk_instant [] [BData 2 [102; 7]] 4 4; mk_instant [] [BDone 1] 4 4; mk_instant [] [BData 0 [100; 7]] 4 4;
-   mk_instant [] [] 4 4; mk_instant [] [] 4 4].
+  [mk_instant false [QRead 10 0 0 4 0 12; QWrite 11 1 64 [9] [] 0 13] [] [] 4 4 2;
+   mk_instant false [QRead 12 2 128 4 0 12] [] [] 4 4 2;
+   mk_instant true [] [BData 2 [102; 7]] [] 4 4 2; mk_instant false [] [BDone 1] [] 4 4 2;
+   mk_instant false [] [BData 0 [100; 7]] [] 4 4 2;
+   mk_instant false [] [] [] 4 4 2; mk_instant false [] [] [] 4 4 2].
 
 Example c21_nonvacuous :
-  match env_run (rob_init 4 2 4 4) demo_script with
+  match env_run (rob_init 4 2 4 4 2) demo_script with
   | (r, obs) =>
       top_traffic r obs = [TData 3 0 10 [100; 7] 6; TDone 4 1 11 4; TData 5 2 12 [102; 7] 6] /\
       map snd (g_acc r) = [0; 1; 2] /\ r_trans r = []
+  end.
+Proof. vm_compute. repeat split. Qed.
+
+(** Non-vacuity across a Reset: A, B, C accepted, B completed (parked behind the head), Reset,
+    then D, E, F; the lower unit completes only D.  Nothing is answered for A, B, C; D is
+    answered with its own data; E and F stay in the table (E is NOT answered with B's data). *)
+Definition reset_script : list instant :=
+  [mk_instant false [QRead 20 0 0 4 0 12; QRead 21 1 64 4 0 12] [] [] 4 4 2;
+   mk_instant false [QRead 22 2 128 4 0 12] [] [] 4 4 2;
+   mk_instant false [] [BData 1 [187; 187]] [] 4 4 2;
+   mk_instant false [] [] [CReq 7000 0 3] 4 4 2;
+   mk_instant false [QRead 23 0 192 4 0 12; QRead 24 1 256 4 0 12] [] [] 4 4 2;
+   mk_instant false [QRead 25 2 320 4 0 12] [] [] 4 4 2;
+   mk_instant false [] [BData 4 [208]] [] 4 4 2;
+   mk_instant false [] [] [] 4 4 2; mk_instant false [] [] [] 4 4 2].
+
+Example c21_nonvacuous_reset :
+  match env_run (rob_init 8 2 4 4 2) reset_script with
+  | (r, obs) =>
+      top_traffic r obs = [TData 7 0 23 [208] 5] /\
+      flat_map to_ctl obs = [mk_crsp 3 0 7000 3 true] /\
+      map (fun a => q_id (fst a)) (g_acc r) = [23; 24; 25] /\ length (r_trans r) = 2%nat
   end.
 Proof. vm_compute. repeat split. Qed.
